@@ -1,8 +1,9 @@
-(* Props/C07.v -- 2D profile generators. Over R. What is proved: point counts, the arc law (radius
-   kept, clockwise advance by degrees/segments), circle/inscribed corners on the radius, the
-   circumscribed radius, the chamfer outline and its clockwise winding. Simplicity, tangency of the
-   circumscribed edges, the rounded-rectangle box and the winding of the trig outlines are decided by
-   the oracles on sampled outputs (exploration), see DESIGN.md. *)
+(* Props/C07.v -- 2D profile generators. Over R. What is proved: point counts, the arc law (radius kept, clockwise advance
+   by degrees/segments), circle/inscribed corners on the radius, the circumscribed radius and tangency of its edges, the
+   rounded-rectangle box (centred or not), and for all six outlines -- circle, inscribed and circumscribed polygon,
+   rounded rectangle, star, chamfer -- the clockwise winding (negative shoelace area) and that they are simple polygons
+   (pairwise distinct vertices, non-neighbouring edges disjoint); the chamfer exactly for 0 < oversize < size, and not
+   beyond (known finding). The float reading of these facts is decided by the oracles on sampled outputs, see DESIGN.md. *)
 From Coq Require Import Reals ZArith List Lia.
 From SCAD Require Import Base.Num Base.NumR Base.Vec Base.Vec_proofs Base.Rot_proofs Geom.Poly Geom.Dim2 Geom.Dim2_proofs Geom.Dim2_winding Geom.Simple Geom.Star_simple Geom.RR_simple.
 Import ListNotations.
